@@ -85,6 +85,7 @@ class ProofStatus:
         self.discharged = 0
         self.build_s = 0.0
         self.log = ""
+        self.coqchk = None
 
     def fail(self, msg):
         self.ok = False
@@ -134,7 +135,31 @@ def forbidden_scan() -> list[str]:
 _PA = re.compile(r"^Print Assumptions\s+(\S+)\.", re.M)
 
 
-def proof_status(pid: str) -> ProofStatus:
+def coqchk_status(pid: str, st: "ProofStatus") -> None:
+    """Thorough tier: re-check the compiled property file and everything it depends on with the
+    independent checker and read its context summary."""
+    rc, out, dt = _run(["timeout", "1500", "coqchk", "-o", "-silent", "-Q", str(COQ), "PdV", f"PdV.Properties.{pid}"],
+                       cwd=str(COQ), timeout=1560)
+    st.coqchk = {"seconds": round(dt, 1), "rc": rc}
+    if rc != 0:
+        st.fail(f"coqchk failed (rc={rc}): " + out[-400:].replace("\n", " | "))
+        return
+    summ = out[out.find("CONTEXT SUMMARY"):] if "CONTEXT SUMMARY" in out else out[-1500:]
+    for key in ("Axioms", "Constants/Inductives relying on type-in-type", "Constants/Inductives relying on unsafe (co)fixpoints",
+                "Inductives whose positivity is assumed"):
+        m = re.search(r"\* " + re.escape(key) + r":(.*?)(?=\n\* |\Z)", summ, re.S)
+        val = " ".join((m.group(1) if m else "?").split())
+        st.coqchk[key] = val
+        if key == "Axioms":
+            axs = [a for a in re.findall(r"([A-Za-z_][\w.]*)", val) if a not in ("none",)]
+            bad = [a for a in axs if a.split(".")[-1] not in ALLOWED_AXIOMS]
+            if val != "<none>" and bad:
+                st.fail(f"coqchk reports axioms outside the allowed set: {bad}")
+        elif val != "<none>":
+            st.fail(f"coqchk: {key}: {val}")
+
+
+def proof_status(pid: str, tier: str = "quick") -> ProofStatus:
     st = ProofStatus()
     rc, out, dt = build_coq()
     st.build_s = dt
@@ -177,6 +202,8 @@ def proof_status(pid: str) -> ProofStatus:
         bad = [a for a in axs if a not in ALLOWED_AXIOMS]
         if bad or not axs:
             st.fail(f"{name} depends on non-allowed assumptions: {bad or chunk.strip()[:200]}")
+    if tier == "thorough" and st.ok:
+        coqchk_status(pid, st)
     st.discharged = sum(1 for d in declared if d in st.theorems) if st.ok else 0
     return st
 
@@ -389,6 +416,9 @@ class Outcome:
             "theorems": proof.theorems,
             "proof_problems": proof.problems,
         }
+        if getattr(proof, "coqchk", None):
+            cov["coqchk"] = proof.coqchk
+            cov["checker_cmd"] += f" && coqchk -o -Q coq PdV PdV.Properties.{self.pid}"
         cov.update(extra_cov)
         ev = {
             "property_id": self.pid,
